@@ -106,8 +106,16 @@ func VerifH_factory_streaming() {
 	if mode := verifrt.Choice("src", 3); mode > 0 {
 		src = &modeReader{data: ct, mode: mode}
 	}
-	r, err := p.NewDecryptingReader(src, aad)
+	// the caller may reuse its associated-data buffer as soon as NewDecryptingReader has
+	// returned (C19): what the reader decrypts does not depend on later writes into it
+	aadArg := append([]byte{}, aad...)
+	r, err := p.NewDecryptingReader(src, aadArg)
 	verifrt.Assert(err == nil, "NewDecryptingReader")
+	if verifrt.Choice("aadreuse", 2) == 1 {
+		for i := range aadArg {
+			aadArg[i] ^= 0xA5
+		}
+	}
 	got, err := readAll(r, [...]int{1, 2, 8}[verifrt.Choice("buf", 3)])
 	if ks.Enabled(producer) {
 		verifrt.Assert(err == io.EOF, "a stream produced by an ENABLED key decrypts and ends with io.EOF")
